@@ -16,6 +16,7 @@
 --
 -- `vw a i` is `a[i]` (total view, only used in range).  `some _` = no panic.
 import WinterProofs.Lemmas.C09Layout
+import WinterProofs.Lemmas.C09Gen
 import Mathlib.Algebra.Field.ZMod
 
 namespace WinterProofs.C09
@@ -36,6 +37,33 @@ theorem permuteIndex_injective (k i j : Nat) (hk : k ≤ 64) (hi : i < 2 ^ k) (h
   exact brev_injOn k i j hi hj (Option.some.inj h)
 
 example : permuteIndex 8 3 = some 6 ∧ permuteIndex 8 6 = some 3 := by decide
+
+/-- ★ tie T: `permute_index` as regenerated from math/src/fft/mod.rs on this run (Winter/Gen/Fft.lean:
+    `reverse_bits`, `trailing_zeros`, `wrapping_shr`, the two debug assertions) IS the model function, for ALL
+    sizes and indexes: same value, and the model's `none` exactly when a regenerated assertion fails -/
+theorem permuteIndex_gen_eq_model (size index : Nat) :
+    permuteIndex size index =
+      if Gen.Fft.permute_index_ok size index then some (Gen.Fft.permute_index size index) else none :=
+  C09G.gen_permute_index_eq_model size index
+
+/-- hence the regenerated function is the bit-reversal involution on `[0, 2^k)` for every `k ≤ 64` -/
+theorem gen_permute_index_involution (k i : Nat) (hk : k ≤ 64) (hi : i < 2 ^ k) :
+    Gen.Fft.permute_index_ok (2 ^ k) i = true ∧ Gen.Fft.permute_index (2 ^ k) i < 2 ^ k ∧
+    Gen.Fft.permute_index (2 ^ k) (Gen.Fft.permute_index (2 ^ k) i) = i := by
+  obtain ⟨j, h1, h2, h3⟩ := permuteIndex_involution k i hk hi
+  rw [permuteIndex_gen_eq_model] at h1 h3
+  by_cases ho : Gen.Fft.permute_index_ok (2 ^ k) i = true
+  · rw [if_pos ho] at h1
+    injection h1 with h1
+    subst h1
+    refine ⟨ho, h2, ?_⟩
+    by_cases ho' : Gen.Fft.permute_index_ok (2 ^ k) (Gen.Fft.permute_index (2 ^ k) i) = true
+    · rw [if_pos ho'] at h3; injection h3
+    · rw [if_neg ho'] at h3; cases h3
+  · rw [if_neg ho] at h1; cases h1
+
+example : Gen.Fft.permute_index 8 3 = 6 ∧ Gen.Fft.permute_index_ok 8 3 = true ∧ Gen.Fft.permute_index_ok 6 3 = false := by
+  decide
 
 /-- `FftInputs::permute` on `2^k` elements does not panic and puts the element of the bit-reversed index at
     every position -/
